@@ -265,8 +265,9 @@ def GR_Graph():
 
 
 def _plain(r):
-    if isinstance(r, tuple):
-        return tuple(np.asarray(x) for x in r)
+    # the container type is part of the result: a graph whose output is a tuple must not compile to code returning a list
+    if isinstance(r, (tuple, list)):
+        return type(r)(np.asarray(x) for x in r)
     return np.asarray(r)
 
 
@@ -335,6 +336,10 @@ class Toy:
         self.rec("never", a)
         return _num(a)
 
+    def kind(self, x):
+        self.rec("kind", type(x).__name__, x)
+        return _num(x)
+
     def make_adder(self, a):
         self.rec("make_adder", a)
         return lambda x: _num(x) + _num(a)
@@ -363,7 +368,7 @@ def synth_case(draw):
                 "kind": draw(
                     st.sampled_from(
                         ["add", "add", "neg", "scale", "pair", "mkdict", "mklist", "ns", "getitem", "getattr", "op2", "op1", "builtin", "import_math", "import_np", "import_from",
-                         "assert", "cast_pair", "append", "setitem", "additem", "total", "slice", "inner_apply", "inner_twice", "inner_map", "inner_never", "adder", "literal_tuple", "literal_dict"]
+                         "assert", "cast_pair", "cast_list", "cast_list", "scale_kw", "scale_kw", "append", "setitem", "additem", "total", "slice", "inner_apply", "inner_twice", "inner_map", "inner_never", "adder", "literal_tuple", "literal_dict"]
                     )
                 ),  # fmt: skip
                 "a": draw(st.integers(0, 200)),
@@ -388,12 +393,13 @@ def build_synth(case, toy):
 
     py = tracer.signature.python
     feats = {"inplace": 0, "nested": 0, "multi_use": 0}
-    C = {name: py.constant(getattr(toy, name)) for name in ["add", "neg", "scale", "pair", "mkdict", "mklist", "ns", "append_", "total", "apply", "apply_twice", "map_list", "never", "make_adder"]}
+    C = {name: py.constant(getattr(toy, name)) for name in ["add", "neg", "scale", "pair", "mkdict", "mklist", "ns", "append_", "total", "apply", "apply_twice", "map_list", "never", "make_adder", "kind"]}
     ins = [py.Value(None) for _ in range(case["n_in"])]
     # pools by "type"
     nums = list(ins)  # tracers that evaluate to numbers
     tuples, dicts, lists, nss, fns = [], [], [], [], []
     fresh_lists = []  # list nodes never used so far (safe to mutate)
+    list_len = {}  # id(list tracer) -> number of elements (casts must name exactly that many values)
     uses = {}
 
     def use(t):
@@ -441,6 +447,7 @@ def build_synth(case, toy):
                 t = py.call(C["mklist"], [pick(nums, a), pick(nums, b)])
                 lists.append(t)
                 fresh_lists.append(t)
+                list_len[id(t)] = 3
             elif k == "ns":
                 nss.append(py.call(C["ns"], [pick(nums, a)]))
             elif k == "getitem":
@@ -484,6 +491,26 @@ def build_synth(case, toy):
                 nums.append(parts[b % 2])
                 if c % 2:
                     nums.append(parts[(b + 1) % 2])
+            elif k == "cast_list" and (lists or tuples):
+                # all elements of a list- (tuple-) valued result, re-packed in order into the *other* container type
+                from_list = bool(lists) and (not tuples or c % 2 == 0)
+                if from_list:
+                    cand = [l for l in lists if not any(l is f for f in fresh_lists)] or lists
+                    t = pick(cand, a)
+                    nel = list_len[id(t)]
+                    parts = tracer.cast(t, lambda origin: [py.Value(origin) for _ in range(nel)])
+                    packed = tuple(parts) if b % 4 else list(parts)
+                else:
+                    t = pick(tuples, a)
+                    parts = tracer.cast(t, lambda origin: (py.Value(origin), py.Value(origin)))
+                    packed = list(parts) if b % 4 else tuple(parts)
+                nums.append(py.call(C["kind"], [packed]))
+                if b % 3 == 0:
+                    nums.append(parts[c % len(parts)])
+            elif k == "scale_kw":
+                # traced values passed by keyword only
+                kw = {"k": pick(nums, b)} if c % 2 else {"off": pick(nums, b), "k": pick(nums, c)}
+                nums.append(py.call(C["scale"], [pick(nums, a)], kw))
             elif k in ("append", "setitem", "additem") and fresh_lists:
                 l = fresh_lists[a % len(fresh_lists)]
                 v = pick(nums, b)
@@ -494,6 +521,7 @@ def build_synth(case, toy):
                     new = py.setitem(l, c % 3, v)
                 else:
                     new = py.additem(l, c % 3, v)
+                list_len[id(new)] = list_len[id(l)] + (1 if k == "append" else 0)
                 # the mutated list replaces the original everywhere from now on
                 for i, x in enumerate(lists):
                     if x is l:
@@ -509,8 +537,10 @@ def build_synth(case, toy):
             elif k == "inner_map" and lists:
                 g = build_inner(step)
                 cand = [l for l in lists if not any(l is f for f in fresh_lists)] or lists
-                t = py.call(C["map_list"], [g, pick(cand, a)])
+                src = pick(cand, a)
+                t = py.call(C["map_list"], [g, src])
                 lists.append(t)
+                list_len[id(t)] = list_len[id(src)]
             elif k == "inner_never":
                 nums.append(py.call(C["never"], [build_inner(step), pick(nums, a)]))
             elif k == "adder":
